@@ -25,7 +25,7 @@ ASSUMPTIONS = [
     'the own_mtime consulted by the next snapshot is the stamp of the state file written after every recorded file state (TreeState::read -> update_own_mtime stats the persisted file); the save/read ordering itself is file-system behaviour and not encoded',
     'the edit keeps size and file type (worst case for detection); Watchman (fsmonitor) path not covered',
 ]
-BUDGET = {'quick': 120, 'thorough': 300}
+BUDGET = {'quick': 900, 'thorough': 300}
 F = 'lib/src/local_working_copy.rs'
 FTYPES = ['Normal0', 'Normal1', 'Symlink', 'GitSubmodule']
 
